@@ -57,8 +57,13 @@ func C20(ctx *core.Ctx) {
 	var drainCall ssax.Call
 	var drainFn *ssa.Function
 	for _, c := range ssax.Calls(serve) {
-		if c.Static != nil && c.Static.Pkg == r.Pkg && len(ssax.CallsTo(c.Static, "(*github.com/nats-io/nats.go.Subscription).Drain")) > 0 {
-			drainCall, drainFn = c, c.Static
+		if c.Static == nil || c.Static.Pkg != r.Pkg || len(c.Static.Blocks) == 0 {
+			continue
+		}
+		for _, g := range localCone(c.Static, 1) { // the Drain loop may sit in a helper of the drain function
+			if len(ssax.CallsTo(g, "(*github.com/nats-io/nats.go.Subscription).Drain")) > 0 {
+				drainCall, drainFn = c, c.Static
+			}
 		}
 	}
 	isAnswer := func(in ssa.Instruction) bool {
@@ -460,39 +465,87 @@ func c20Drain(ctx *core.Ctx, r *RT, d *ssa.Function) {
 	dn := ssax.Name(d)
 	successRet := func(ret *ssa.Return) bool {
 		if len(ret.Results) != 1 {
-			return false
+			return len(ret.Results) == 0
 		}
 		c, ok := ssax.Strip(ResolveLocal(ret.Results[0])).(*ssa.Const)
 		return ok && c.IsNil()
 	}
-	var drainC, flushC, barrierC ssa.Instruction
-	ssax.Instrs(d, func(in ssa.Instruction) {
-		switch {
-		case isCallTo(in, "(*github.com/nats-io/nats.go.Subscription).Drain"):
-			drainC = in
-		case isCallTo(in, "(*github.com/nats-io/nats.go.Conn).Flush", "(*github.com/nats-io/nats.go.Conn).FlushTimeout"):
-			flushC = in
-		case isCallTo(in, "(*github.com/nats-io/nats.go.Conn).Barrier"):
-			barrierC = in
-		}
-	})
-	// Drain over every element of the parameter slice
-	okLoop := false
-	if drainC != nil {
-		c, _ := ssax.AsCall(drainC)
-		if u, ok := ssax.Strip(c.Common.Args[0]).(*ssa.UnOp); ok {
-			if ia, ok := u.X.(*ssa.IndexAddr); ok && len(d.Params) > 1 && ssax.Strip(ia.X) == ssa.Value(d.Params[1]) && inCycle(drainC) {
-				okLoop = true
-				// every trip: from the element load no way to the next element or to a successful return without Drain
-				next := func(in ssa.Instruction) bool {
-					if in == ssa.Instruction(u) {
-						return true
-					}
-					ret, isRet := in.(*ssa.Return)
-					return isRet && successRet(ret)
+	isDrain := func(in ssa.Instruction) bool {
+		return isCallTo(in, "(*github.com/nats-io/nats.go.Subscription).Drain")
+	}
+	isFlush := func(in ssa.Instruction) bool {
+		return isCallTo(in, "(*github.com/nats-io/nats.go.Conn).Flush", "(*github.com/nats-io/nats.go.Conn).FlushTimeout")
+	}
+	isBarrier := func(in ssa.Instruction) bool { return isCallTo(in, "(*github.com/nats-io/nats.go.Conn).Barrier") }
+	// a step happens in d itself or in a helper of the package called from d (one level);
+	// site = the instruction of d, where = the function holding the library call, at = that call
+	type stepSite struct {
+		site  ssa.Instruction
+		where *ssa.Function
+		at    ssa.Instruction
+	}
+	find := func(p ssax.Pred) stepSite {
+		var out stepSite
+		ssax.Instrs(d, func(in ssa.Instruction) {
+			if p(in) {
+				out = stepSite{in, d, in}
+				return
+			}
+			c, ok := in.(*ssa.Call)
+			if !ok {
+				return
+			}
+			g := c.Call.StaticCallee()
+			if g == nil || g.Pkg != r.Pkg || len(g.Blocks) == 0 || g == d {
+				return
+			}
+			ssax.Instrs(g, func(in2 ssa.Instruction) {
+				if p(in2) {
+					out = stepSite{in, g, in2}
 				}
-				if ssax.PathFrom(d, u, next, func(in ssa.Instruction) bool { return in == drainC }) != nil {
-					okLoop = false
+			})
+		})
+		return out
+	}
+	drainS, flushS, barrierS := find(isDrain), find(isFlush), find(isBarrier)
+	drainC, flushC, barrierC := drainS.site, flushS.site, barrierS.site
+	// Drain over every element of the slice handed to the drain function
+	okLoop := false
+	if drainS.at != nil {
+		L := drainS.where
+		c, _ := ssax.AsCall(drainS.at)
+		if u, ok := ssax.Strip(c.Common.Args[0]).(*ssa.UnOp); ok {
+			if ia, ok := u.X.(*ssa.IndexAddr); ok && inCycle(drainS.at) {
+				// the indexed slice is a parameter of L that receives a slice parameter of d
+				fromParam := false
+				for j, q := range L.Params {
+					if ssax.Strip(ia.X) != ssa.Value(q) {
+						continue
+					}
+					if _, isSl := q.Type().Underlying().(*types.Slice); !isSl {
+						continue
+					}
+					if L == d {
+						fromParam = true
+					} else if call, isCall := drainS.site.(*ssa.Call); isCall && j < len(call.Call.Args) {
+						if dp, isP := ssax.Strip(call.Call.Args[j]).(*ssa.Parameter); isP && dp.Parent() == d {
+							fromParam = true
+						}
+					}
+				}
+				if fromParam {
+					okLoop = true
+					// every trip: from the element load no way to the next element or to a successful return without Drain
+					next := func(in ssa.Instruction) bool {
+						if in == ssa.Instruction(u) {
+							return true
+						}
+						ret, isRet := in.(*ssa.Return)
+						return isRet && successRet(ret)
+					}
+					if ssax.PathFrom(L, u, next, func(in ssa.Instruction) bool { return in == drainS.at }) != nil {
+						okLoop = false
+					}
 				}
 			}
 		}
@@ -501,7 +554,8 @@ func c20Drain(ctx *core.Ctx, r *RT, d *ssa.Function) {
 	steps := []struct {
 		name string
 		in   ssa.Instruction
-	}{{"Subscription.Drain", drainC}, {"Conn.Flush", flushC}, {"Conn.Barrier", barrierC}}
+		p    ssax.Pred
+	}{{"Subscription.Drain", drainC, isDrain}, {"Conn.Flush", flushC, isFlush}, {"Conn.Barrier", barrierC, isBarrier}}
 	for i := 0; i+1 < len(steps); i++ {
 		a, b := steps[i], steps[i+1]
 		if a.in == nil || b.in == nil {
@@ -520,12 +574,12 @@ func c20Drain(ctx *core.Ctx, r *RT, d *ssa.Function) {
 		if s.in == nil {
 			continue
 		}
-		mn, _ := ssax.CountOnPathsTo(d, nil, func(in ssa.Instruction) bool { return in == s.in }, successRet)
+		mn, _ := ssax.CountOnPathsToW(d, nil, liftedWeight(d, s.p, 1), successRet)
 		ctx.Check(mn >= 1, "C20.R1", dn+" › "+s.name+" on every successful drain", r.IPos(s.in), "on every path to return nil", "a successful drain can skip "+s.name)
 	}
 	// barrier awaited: a receive from the channel closed by the barrier callback, after Barrier, on every success path
 	if barrierC != nil {
-		c, _ := ssax.AsCall(barrierC)
+		c, _ := ssax.AsCall(barrierS.at)
 		var cbChan ssa.Value
 		// a method value bound to the channel (barrier.release): the method closes its receiver
 		var boundChan ssa.Value
@@ -580,7 +634,7 @@ func c20Drain(ctx *core.Ctx, r *RT, d *ssa.Function) {
 			}
 			return false
 		}
-		mn, _ := ssax.CountOnPathsTo(d, barrierC, isAwait, successRet)
+		mn, _ := ssax.CountOnPathsTo(barrierS.where, barrierS.at, isAwait, successRet)
 		ctx.Check((cbChan != nil || boundChan != nil) && mn >= 1, "C20.R1", dn+" › barrier awaited", r.IPos(barrierC), "receive from the channel the barrier callback closes, on every success path", "the drain returns without waiting for the barrier: handler callbacks may still enqueue after the queue is closed")
 	}
 }
@@ -627,7 +681,15 @@ func c20Worker(ctx *core.Ctx, r *RT, w *ssa.Function) {
 	// the frame is processed inside the iteration, synchronously
 	sync := false
 	for _, c := range ssax.Calls(w) {
-		if c.Static != nil && c.Static.Pkg == r.Pkg && len(ssax.CallsTo(c.Static, "(*github.com/nats-io/nats.go.Conn).Publish")) > 0 {
+		publishes := false
+		if c.Static != nil && c.Static.Pkg == r.Pkg && len(c.Static.Blocks) > 0 {
+			for _, g := range localCone(c.Static, 2) { // localCone follows synchronous calls only
+				if len(ssax.CallsTo(g, "(*github.com/nats-io/nats.go.Conn).Publish")) > 0 {
+					publishes = true
+				}
+			}
+		}
+		if publishes {
 			_, isGo := c.Instr.(*ssa.Go)
 			if !isGo && inCycle(c.Instr.(ssa.Instruction)) {
 				if tup, ok := ExtractOf(c.Args()[1], 0); ok && tup == ssa.Value(rangeRecv) {
